@@ -488,6 +488,9 @@ DEFS = {
                'd4': ('binary2', ['d2', 'd3'])},
     'plain': {'d1': ('binary', ['x', 'p1']), 'd2': ('func', ['d1', 'y']), 'd3': ('func', ['d1', 'x']),
               'd4': ('binary2', ['d2', 'd3'])},
+    # the same attribute occurs in BOTH operands of one arithmetic step (a renamed id must be replaced everywhere)
+    'repeat': {'d1': ('rep', ['x', 'y']), 'd2': ('sq', ['x', 'x']), 'd3': ('func', ['d1', 'x']),
+               'd4': ('binary2', ['d2', 'd3'])},
 }
 
 
@@ -542,6 +545,10 @@ class Scenario(object):
             return a - b
         if kind == 'binary2':
             return a / 2 + b
+        if kind == 'rep':
+            return (a - b) / a
+        if kind == 'sq':
+            return a * b
         raise core.EngineError(kind)
 
     def dependents(self, w, name):
@@ -587,6 +594,10 @@ class Scenario(object):
                 label = d
                 if kind == 'binary':
                     link = a + b * 2
+                    data.add_component_link(link, label)
+                    cid = link.get_to_id()
+                elif kind in ('rep', 'sq'):
+                    link = (a - b) / a if kind == 'rep' else a * b
                     data.add_component_link(link, label)
                     cid = link.get_to_id()
                 elif kind == 'func':
@@ -695,8 +706,10 @@ class Scenario(object):
 
 def h_tiers(tier):
     if tier == 'quick':
-        return [('plain', Scenario('plain', uid_budget=2), 5), ('parsed', Scenario('parsed', uid_budget=2), 5)]
-    return [('plain', Scenario('plain', uid_budget=2), 7), ('parsed', Scenario('parsed', uid_budget=2), 7)]
+        return [('plain', Scenario('plain', uid_budget=2), 5), ('parsed', Scenario('parsed', uid_budget=2), 5),
+                ('repeat', Scenario('repeat', uid_budget=3), 5)]
+    return [('plain', Scenario('plain', uid_budget=2), 7), ('parsed', Scenario('parsed', uid_budget=2), 7),
+            ('repeat', Scenario('repeat', uid_budget=3), 7)]
 
 
 def _scn_for(label):
